@@ -4,3 +4,4 @@ INVARIANT FileWins
 INVARIANT AbsentKeepsCli
 INVARIANT MalformedIsReported
 INVARIANT InitAlwaysCompletes
+INVARIANT RequestedFileWins
